@@ -138,6 +138,15 @@ func checkWriter(ops []setOp) error {
 	if err := chunkedParses(wire, back.BytesBuffer().Bytes()); err != nil {
 		return err
 	}
+	// (1c) more parsing happens before the values are read (other requests, other connections)
+	if len(wire) > 0 {
+		noise := bytes.Repeat([]byte{0x5A}, len(wire))
+		if len(noise) >= 2 {
+			noise[1] = 0
+		}
+		util.NewTLV8ContainerFromReader(bytes.NewReader(noise))
+		util.NewTLV8ContainerFromReader(iotest.OneByteReader(bytes.NewReader(noise)))
+	}
 	for t := 0; t < 256; t++ {
 		tag := byte(t)
 		want := model[tag]
@@ -428,9 +437,34 @@ func checkParse(in []byte) (class string, nontrivial bool, err error) {
 		}
 		return "parser:accepted-truncated", nontrivial, nil
 	}
+	// another, unrelated input is parsed before the container is read: what a container yields must not
+	// depend on what is parsed afterwards (on this or on any other connection)
+	other := make([]byte, len(in))
+	for i := range other {
+		other[i] = byte(0xA5 ^ i)
+	}
+	if len(other) >= 2 {
+		other[1] = byte(len(other) - 2)
+		if len(other)-2 > 255 {
+			other[1] = 255
+		}
+	}
+	util.NewTLV8ContainerFromReader(bytes.NewReader(other))
 	for tg := 0; tg < 256; tg++ {
-		if got := c.GetBytes(byte(tg)); !bytes.Equal(got, want[byte(tg)]) {
-			return "parser:accepted", nontrivial, fmt.Errorf("tag %d yields %x, input holds %x", tg, got, want[byte(tg)])
+		w := want[byte(tg)]
+		if got := c.GetBytes(byte(tg)); !bytes.Equal(got, w) {
+			return "parser:accepted", nontrivial, fmt.Errorf("tag %d yields %x, input holds %x", tg, got, w)
+		}
+		// the three accessors are views of the same value
+		if s := c.GetString(byte(tg)); s != string(w) {
+			return "parser:accepted", nontrivial, fmt.Errorf("tag %d: GetString yields %q, GetBytes %x", tg, s, w)
+		}
+		var wb byte
+		if len(w) > 0 {
+			wb = w[0]
+		}
+		if b := c.GetByte(byte(tg)); b != wb {
+			return "parser:accepted", nontrivial, fmt.Errorf("tag %d: GetByte yields %d, the value's first byte is %d (value %x)", tg, b, wb, w)
 		}
 	}
 	if re := c.BytesBuffer().Bytes(); !bytes.Equal(re, in) {
